@@ -693,6 +693,9 @@ def stream_case(ctx, case):
                 err = None
                 fm = so.af.Forms(op.get("af"), ctx)
                 mop = {"t": t, "slot": op["slot"], "sid": 0}
+                # `load` is only promised to succeed into a SHAPE-COMPATIBLE receiver of the writer's kind (C11's statement); into any other
+                # model torch's load_state_dict refuses (RuntimeError: size mismatch) and the oracle has nothing to say
+                recv = so.snapshot_state(real.models[op["slot"]]) if t == "loadS" else None
                 try:
                     if t == "autoloadS":
                         real.models[op["slot"]] = so.KINDS[op["kind"]].autoload(fh, gpu=fm.gpu())
@@ -703,7 +706,10 @@ def stream_case(ctx, case):
                     err = type(e).__name__
                     if t == "autoloadS":
                         mop.update(kind=op["kind"], rand=[])
-                same = so.KINDS[op["kind"]].__name__ == snap["kind"] if t == "autoloadS" else True
+                same = so.KINDS[op["kind"]].__name__ == snap["kind"] if t == "autoloadS" else \
+                    (recv["kind"] == snap["kind"] and recv["arch"] == snap["arch"])
+                if not same:
+                    ctx.count(f"{t}: receiver / requested kind not compatible with the checkpoint (outcome compared with the model only)")
                 if same:
                     ok = err is None
                     if ok:
